@@ -114,6 +114,27 @@ type Result struct {
 	Conformance []string `json:"conformance,omitempty"`
 }
 
+// IsolationSignature is the suffix-free signature of the self-check's finding; drivers prefix nothing: it is the same
+// defect whatever property's scenario exposes it.
+const IsolationSignature = "state-outside-the-store-survives-a-discarded-execution"
+
+// IsolationCheck re-runs the self-check of Run for a replay file.
+func IsolationCheck(spec Spec) (string, bool) {
+	e := &explorer{spec: spec, visited: map[[32]byte]int{}, res: &Result{Outcomes: map[string]int{}, Counters: map[string]int{}, ViolationCounts: map[string]int{}}}
+	a := spec.Init()
+	a.spec = spec
+	f1 := e.firstLevel(a, false)
+	b := spec.Init()
+	b.spec = spec
+	f2 := e.firstLevel(b, true)
+	for i := range f1 {
+		if i < len(f2) && f1[i] != f2[i] {
+			return fmt.Sprintf("%s  vs  %s", f1[i], f2[i]), true
+		}
+	}
+	return "", false
+}
+
 // Progress is stamped before every transition; a worker's watchdog uses it to turn an operation that does not
 // terminate into a harness error instead of a hang.
 var (
@@ -202,6 +223,18 @@ func Run(spec Spec, opt Options) *Result {
 				res.DeterminismDiff = fmt.Sprintf("%s  vs  %s", fp1[i], fp2[i])
 				break
 			}
+		}
+		// tell apart "the harness is not deterministic" from "an execution that was thrown away influenced a later one":
+		// a third world takes the forward order again; if it agrees with the first, the order is what matters
+		third := spec.Init()
+		third.spec = spec
+		if fp3 := e.firstLevel(third, false); strings.Join(fp1, "\n") == strings.Join(fp3, "\n") {
+			res.DeterminismOK = true
+			v := Violation{Oracle: "discarded-execution-leaves-no-trace", Signature: IsolationSignature,
+				Detail: "the same operation on the same state gives different results depending on which other operations were executed before it on branches that were thrown away (state kept outside the store): " + res.DeterminismDiff,
+				Path:   []string{"(first-level operations in forward and in reverse order)"}, Scenario: spec.Name()}
+			res.Violations = append(res.Violations, v)
+			res.ViolationCounts[v.Signature]++
 		}
 	}
 
